@@ -32,9 +32,16 @@ class DiscreteTimeInterpreter(TimeInterpreter):
         self.previous_time = float(0.0)
         self.sampling_violation_counter = int(0)
 
-        self.normalize = float(1.0)
-
         return
+
+    @property
+    def normalize(self):
+        # factor converting a duration between two time stamps, given in the default
+        # unit of the specification, into the unit of the sampling period
+        try:
+            return float(self.ast.U[self.ast.unit]) / self.ast.U[self.sampling_period_unit]
+        except AttributeError:
+            return float(1.0)
 
     @property
     def sampling_period(self):
